@@ -32,7 +32,10 @@ def configs(quick=True):
            ('NaiveLinear', {'features': 48, 'scale': 0.05}),
            # frozen parameters (requires_grad_(False): fine-tuning another part of the model, EMA / manual in-place updates): every
            # clause of the property is about parameter VALUES, so the same histories must behave the same
-           ('LULinear', {'features': 3, 'frozen': True}), ('SVDLinear', {'features': 3, 'num_householder': 2, 'frozen': True})]
+           ('LULinear', {'features': 3, 'frozen': True}), ('SVDLinear', {'features': 3, 'num_householder': 2, 'frozen': True}),
+           # a second live layer of the same class (evaluation mode, cache on, other parameter values) performs every observation first:
+           # two layers of one flow used alternately; each must keep answering from ITS OWN parameters
+           ('QRLinear', {'features': 3, 'num_householder': 2, 'decoy': True}), ('NaiveLinear', {'features': 3, 'decoy': True})]
     if not quick:
         out += [('LULinear', {'features': 5}), ('NaiveLinear', {'features': 5}), ('OneByOneConvolution', {'features': 4}),
                 ('LULinear', {'features': 1}), ('NaiveLinear', {'features': 1})]
@@ -90,6 +93,11 @@ class Runner:
         self._randomise(self.t, 0.2 if not cfg.get('scale') else 0.01 * cfg['scale'])   # (a prescribed scale is kept)
         if cfg.get('frozen'):
             self.t.requires_grad_(False)
+        self.decoy = None
+        if cfg.get('decoy'):
+            self.decoy = build(cls, cfg, True)
+            self._randomise(self.decoy, 0.5)
+            self.decoy.eval()
         self.ref = build(cls, cfg, False)
         self.ref.train()
         self.dtype = torch.float32
@@ -213,6 +221,14 @@ class Runner:
             elif op in OBS:
                 x = self.inputs()
                 res['x'] = x
+                if self.decoy is not None:
+                    try:
+                        with torch.no_grad():
+                            if next(self.decoy.parameters()).dtype != x.dtype:
+                                self.decoy.to(x.dtype)
+                            self.decoy.inverse(x) if op == 'inv' else self.decoy(x)
+                    except Exception:
+                        pass
                 if op == 'fwdBwd':
                     xx = x.detach().clone().requires_grad_(True)
                     y, ld = t(xx)
